@@ -12,22 +12,29 @@ from hv.vmri import case_to_task
 PID = 'C01'
 
 
+def hash_name(n):
+    import zlib
+    return zlib.crc32(n.encode())
+
+
 def main():
     rep = Report(PID, 'translation_validation', 'symbolic execution of the emitted assembly (z3) vs source-level reference interpreter; equivalence obligations per path pair')
     quick = rep.tier == 'quick'
-    cases = F.seq_enumerated() + F.entry_matrix() + F.op_positions() + F.seq_random(rep.seed, 300 if quick else 3000)
+    cases = F.seq_enumerated() + F.entry_matrix() + F.op_positions() + F.usesite_matrix() + F.seq_random(rep.seed, 300 if quick else 3000)
     widths = [2, 3, 4] if quick else [2, 3, 4, 8]
     tasks = []
     for W in widths:
         for c in cases:
             if W != 2 and c.name.startswith('seq/random') and int(c.name.rsplit('-', 1)[1]) % 4:
                 continue
+            if W != 2 and c.name.startswith('usesite/') and hash_name(c.name) % 3 != W % 3:
+                continue
             if W != 2 and ('write-int' in c.name or 'writeln-int' in c.name):
                 continue        # write(int) of a symbolic value does not bit-blast above 16 bits (C17 treats it with lemmas)
             tasks.append(case_to_task(c.with_(word=W, stack=96), max_steps=20000, stack_garbage=not quick, vm_wall=120,
                                       allow_reject='random' in c.name))
     run_tasks(rep, tasks)
-    rep.rule = ('templates = enumerated T-seq family + entry-point signature matrix + every operator in every position + seeded random sequential programs; distinct = distinct '
+    rep.rule = ('templates = enumerated T-seq family + entry-point signature matrix + every operator in every position + use-site matrix (expression kind x consuming site) + seeded random sequential programs; distinct = distinct '
                 'template name x word size with at least one committed VM path; all entry arguments symbolic (whole word / byte / string bytes)')
     rep.functions_encoded = ['emitted code of CodeGen.gen_func/gen_block/gen_stmts/push_expr/eval_expr/eval_func_call/lookup_var/make_global/array_lookup/array_assignment + stdlib routines used']
     rep.bounds = dict(word_sizes=widths, stack_words=96, array_lengths='0..3 (concrete), contents symbolic',
